@@ -29,14 +29,18 @@ def gen_structured(rng, vocab):
             for _ in range(rng.randrange(1, 8)):
                 x = rng.random()
                 if x < 0.55: t += rng.choice(names)
-                elif x < 0.65 and userdefs: t += rng.choice(userdefs)
+                elif x < 0.65 and userdefs:
+                    u = rng.choice(userdefs)
+                    # sometimes the half-width spelling of a word defined with full-width characters: not that word
+                    t += (u if rng.random() < 0.75 else "".join(chr(ord(ch) - 0xFF01 + 0x21) if 0xFF01 <= ord(ch) <= 0xFF5E else (" " if ch == "　" else ch) for ch in u))
                 elif x < 0.9: t += rng.choice(ASCII_MML)
                 elif x < 0.95: t += rng.choice(["　", "ａ", "１", "（", "）", "｜", "＃", "＠"])
                 else: t += rng.choice(["あ", "ん", "漢", "é", "😀"])
             t = t.replace("//", "/ /").replace("/*", "/ *").replace('{"', '{ "').replace("~", "")
             segs.append(hx_seg("T", t)); src += t
         elif r < 0.7:
-            name = rng.choice(["どー", "あ", "メロ", "x1", "ドレ", rng.choice(names) + "ー", rng.choice(names)])
+            # (names may contain full-width ASCII and ideographic spaces: a word is the text as written, matched as written)
+            name = rng.choice(["どー", "あ", "メロ", "x1", "ドレ", rng.choice(names) + "ー", rng.choice(names), "サビ１", "Ｖ", "メロ　Ａ", "ａｂ", "x１"])
             value = rng.choice(["c", "d8", "[2 e]", "o4", "", "l8 c d", "{v}", "c\nd", "\ne\n\n"])      # a definition may span lines
             if "{" in name or "}" in name: continue
             form = rng.choice(["~{%s}={%s}", "~{%s} = {%s}", "～{%s}={%s}", "~ {%s}{%s}"])
